@@ -50,8 +50,8 @@ BOUNDS = (
     "offset of the 2-message stream; all 3136 send() acceptance patterns of a 14-octet frame for "
     "_net_write/send_tcp with would-block variants; send_tcp o receive_tcp round trip; tcp() with 11 "
     "reply kinds x 4 chunkings x {sync, async}.  Seeded: random fragmentations (chunks 1-40, blocks, "
-    "SSLWantRead) of 1-4 realistic messages (300 quick / 3000 thorough), random datagram sequences "
-    "of length 5-8 (400 quick / 6000 thorough).  _wait_for itself (selectors) is replaced by its "
+    "SSLWantRead) of 1-4 realistic messages (1500 quick / 10000 thorough), random datagram sequences "
+    "of length 5-8 (2000 quick / 20000 thorough).  _wait_for itself (selectors) is replaced by its "
     "contract except for the expired-deadline check, which is run on a real socketpair; TLS/QUIC/HTTPS "
     "transports and the asyncio/trio backends' own socket code are outside this stand-in; TSIG is off."
 )
@@ -296,7 +296,7 @@ class _Stream:
 
     def _tick(self):
         self.calls += 1
-        if self.calls > 100000:
+        if self.calls > 4 * (len(self.data) + len(self.written)) + 2000:
             raise _Runaway()
 
     def recv(self, count):
@@ -355,7 +355,7 @@ class _AStream:
 
     async def recv(self, size, timeout):
         self.calls += 1
-        if self.calls > 100000:
+        if self.calls > 4 * (len(self.data) + len(self.written)) + 2000:
             raise _Runaway()
         ev = self.schedule.pop(0) if self.schedule else 1 << 20
         if ev == "T" or (self.pos >= len(self.data) and self.stall):
@@ -1265,7 +1265,7 @@ def run(R):
 
     # ---- seeded
     rng = R.rng
-    nseq = 400 if R.quick else 6000
+    nseq = 2000 if R.quick else 20000
     for i in range(nseq):
         if R.deadline():
             break
@@ -1279,7 +1279,7 @@ def run(R):
         nudp += 1
         if p:
             R.violation(p[0], p[1], sig=p[2], replay={"kind": "udp", "fn": fn, "twin": twin, "opts": list(opts), "seq": seq, "kw": {}})
-    nfr = 300 if R.quick else 3000
+    nfr = 1500 if R.quick else 10000
     pool = [real1, real2, m1, _dgram("Tc", 3), _dgram("Gs", 4), _msg(9, QR, [_q((b"a" * 63,) * 3, T_A)], [_rr((b"a" * 63,) * 3, T_TXT, 5, b"\x10" + b"z" * 16)] * 25)]
     for i in range(nfr):
         if R.deadline():
